@@ -874,7 +874,10 @@ LEVEL_TEXT = ('Coq theorems, all for every decoded user/password/path (every cod
               'only on the two byte streams). Closed under the global context. The model is hand-written and tied to the code on every run by '
               'vm_compute evaluation against the real Session/Commander/ControlStream/DataStream/Reply/Command/Connection/StreamReader over a scripted '
               'transport that reproduces segmentation and arrival schedule exactly.')
-LEVEL_NOTE = ('Trusted: Coq kernel + vm_compute; hand-written model and harness; StreamReader semantics modelled concretely; URL percent-decoding '
+LEVEL_NOTE = ('Time is not in the model: a stalled data path is just a late arrival. The implementation runs on a virtual-time event loop and some '
+              'visits stall the data connection for 6-600 virtual seconds after part of the data, so that a client-side grace period or timer that '
+              'declares the transfer complete early is observed (complete without data EOF / with partial data). '
+              'Trusted: Coq kernel + vm_compute; hand-written model and harness; StreamReader semantics modelled concretely; URL percent-decoding '
               'is outside the model (theorems cover every decoded string; the correspondence sweeps every byte value through the real decoder); '
               'reply text compared as bytes; parse_address modelled on ASCII; arrival granularity as described in the trusted list. '
               'Proved on the tree with the fixes for F22 (command injection), F23 (AssertionError in Reply.parse) and F25 (PASV numbers > 255).')
